@@ -1,4 +1,4 @@
-import RxModel.Conc.TimeSteps
+import RxModel.Lemmas.TimeStepsOnce
 /-
   C09 (thread-safe flavour) — throttle against its window task on ANOTHER thread, at the granularity of single
   `MutArc` acquisitions (model: RxModel/Conc/TimeSteps.lean, the step model of C02S; tie to /repo: suite `coop`,
@@ -46,5 +46,72 @@ theorem C09S_throttle_sequential_same (o : Order) (h : o = .original ∨ o = .le
       (List.replicate 60 2 ++ List.replicate 30 0 ++ List.replicate 30 1)).st.log =
       [.n (.next (.int 1)), .n (.next (.int 7))] := by
   rcases h with rfl | rfl <;> decide +kernel
+
+/-! ### at most once, for every interleaving -/
+
+/-- **No item is delivered more often than it was emitted — debounce and throttle (every edge mode), ALL
+    interleavings.**  Any window length, the subject alive or already terminated at subscription, ANY number of
+    threads each running ANY list of operations (`emit next/error/complete`, `unsub`, `poll j` incl. spurious polls,
+    `run`, `adv`, `fire`), EVERY schedule at the granularity of single lock acquisitions: the number of times the item
+    `v` stands in the probe log is at most the number of `emit (next v)` operations in the programs.
+    (Token argument: Lemmas/TimeStepsOnce.lean — an emitted item is in at most one place, and between its store of
+    the candidate and its decision about the leading edge the emitter finds its own item in the cell or nothing.) -/
+theorem C09S_at_most_once {K : Conf} (hK : HConf K) (live : Bool) (progs : List (List Op)) (sched : List Nat)
+    (v : Val) :
+    (exec K (Cfg.init (St.subscribed live) progs) sched).st.log.count (.n (.next v)) ≤
+      (progs.map fun ops => ops.count (.emit (.next v))).sum := by
+  have h := (Phi_exec hK v live progs sched).2
+  unfold Phi tokS at h
+  exact Nat.le_trans (by omega) h
+
+theorem C09S_throttle_at_most_once (d : Nat) (e : Edge) (live : Bool) (progs : List (List Op)) (sched : List Nat)
+    (v : Val) :
+    (exec ⟨.throttle d e, .original⟩ (Cfg.init (St.subscribed live) progs) sched).st.log.count (.n (.next v)) ≤
+      (progs.map fun ops => ops.count (.emit (.next v))).sum :=
+  C09S_at_most_once (hconf_throttle d e) live progs sched v
+
+theorem C09S_debounce_at_most_once (d : Nat) (live : Bool) (progs : List (List Op)) (sched : List Nat) (v : Val) :
+    (exec ⟨.debounce d, .original⟩ (Cfg.init (St.subscribed live) progs) sched).st.log.count (.n (.next v)) ≤
+      (progs.map fun ops => ops.count (.emit (.next v))).sum :=
+  C09S_at_most_once (hconf_debounce d) live progs sched v
+
+/-- **Nothing is invented**: an item nobody emits is never delivered. -/
+theorem C09S_only_source_items {K : Conf} (hK : HConf K) (live : Bool) (progs : List (List Op)) (sched : List Nat)
+    (v : Val) (hv : ∀ ops ∈ progs, Op.emit (.next v) ∉ ops) :
+    Item.n (.next v) ∉ (exec K (Cfg.init (St.subscribed live) progs) sched).st.log := by
+  have h := C09S_at_most_once hK live progs sched v
+  have h0 : (progs.map fun ops => ops.count (.emit (.next v))).sum = 0 := by
+    clear h
+    induction progs with
+    | nil => rfl
+    | cons a r ih =>
+      simp only [List.map_cons, List.sum_cons]
+      rw [ih (fun ops ho => hv ops (List.mem_cons_of_mem _ ho)),
+        List.count_eq_zero.mpr (hv a List.mem_cons_self)]
+  rw [h0] at h
+  exact List.count_eq_zero.mp (Nat.le_zero.mp h)
+
+/-- **No duplicates**: an item emitted once is delivered at most once. -/
+theorem C09S_no_duplicate {K : Conf} (hK : HConf K) (live : Bool) (progs : List (List Op)) (sched : List Nat)
+    (v : Val) (h1 : (progs.map fun ops => ops.count (.emit (.next v))).sum ≤ 1) :
+    (exec K (Cfg.init (St.subscribed live) progs) sched).st.log.count (.n (.next v)) ≤ 1 :=
+  Nat.le_trans (C09S_at_most_once hK live progs sched v) h1
+
+/-- The statement is FALSE for the code before a1fa54c (`Order.leadAlways`): item 7, emitted once, twice in the log. -/
+theorem C09S_leadAlways_not_at_most_once :
+    ¬ ∀ (progs : List (List Op)) (sched : List Nat) (v : Val),
+      (exec ⟨.throttle 3 .all, .leadAlways⟩ (Cfg.init (St.subscribed true) progs) sched).st.log.count (.n (.next v)) ≤
+        (progs.map fun ops => ops.count (.emit (.next v))).sum := by
+  intro h
+  have := h dupProgs dupSched (.int 7)
+  rw [C09S_throttle_leadAlways_duplicates] at this
+  revert this
+  decide
+
+/-- non-vacuity: deliveries do happen (two items through a leading+trailing throttle on three threads) -/
+example :
+    (exec ⟨.throttle 3 .all, .original⟩ (Cfg.init (St.subscribed true) dupProgs) dupSched).st.log.count
+      (.n (.next (.int 7))) = 1 := by
+  rw [C09S_throttle_same_schedule_once]; decide
 
 end Rx.Conc.TS
